@@ -25,6 +25,34 @@ CHECKS = {
         "Trusts the document grammar in vlib/markup.py to produce only "
         "documents the language accepts, and html.escape as escaping oracle.",
         "DESIGN.md 3/C03"),
+    "C08": (
+        "exploration",
+        "exhaustive enumeration of (length, position) against closed forms; "
+        "Hypothesis-generated loop nests against a reference model",
+        "Every repeat variable at every position of every length up to the "
+        "tier bound (60 quick / 300 thorough) plus boundary lengths around 26, "
+        "702/703 and 3999/4000, read through RepeatItem and through a rendered "
+        "template, is compared with independent closed forms (exhaustive "
+        "inside the bound); generated nestings of tal:repeat over all iterable "
+        "kinds are compared with a reference model, separators included for "
+        "ordinary elements on their own line.",
+        "Trusts the closed forms in checks/c08.py (documented letter "
+        "sequence, roman digit tables) and the small loop model; three "
+        "known findings (K2, K3, K11) are attributed through deviation "
+        "models, everything else is a violation.",
+        "DESIGN.md 3/C08"),
+    "C20": (
+        "exploration",
+        "Hypothesis part-list generation with constructive expected output "
+        "(reference model of text mode)",
+        "Generated sequences of literal atoms (markup, quotes, "
+        "template-looking attributes, $$, lone $, braces, CR/LF, non-ASCII) "
+        "and ${expr} parts are rendered through PageTextTemplate (str and "
+        "bytes) and PageTextTemplateFile (three encodings) and compared with "
+        "the output constructed from the parts.",
+        "Trusts Python eval of the generator's own expression text as the "
+        "value oracle and the part-list construction of the expected text.",
+        "DESIGN.md 3/C20"),
 }
 
 NOT_APPLICABLE = {}
